@@ -243,6 +243,10 @@ def gen_cases(ctx):
         # roll of the section about the member's own axis on an EXISTING, already solved simulation
         cases.append({"kind": "beam_roll", "timo": timo, "elemType": "SEG3" if timo else "SEG2", "roll": 25.0 if timo else 90.0,
                       "F": [100.0, -300.0, 200.0]})
+        # scaled twin (change of length unit, x 1e3: a frame given in millimetres): rotated L-frame
+        if not timo or not quick:
+            cases.append({"kind": "beam", "dim": 2, "timo": timo, "elemType": "SEG3", "points": [[0, 0, 0], [100.0, 0, 0], [100.0, 80.0, 0]],
+                          "F": [300.0, -800.0, 0.0], "M": [0, 0, 4.0e6], "angle": 47.0, "scaleL": 1e3})
         # rotated L-frame with a tip moment (proper rotation)
         cases.append({"kind": "beam", "dim": 2, "timo": timo, "elemType": "SEG3", "points": shapes2[1], "F": [300.0, -800.0, 0.0], "M": [0, 0, 5000.0],
                       "angle": round(rng.uniform(5, 355), 1)})
@@ -294,6 +298,8 @@ def classify(c, r, beam):
         key = "pressure-reflected-mesh:Get_normals"
     elif c["kind"] == "beam_roll":
         key = "beam-section-roll-on-existing-simulation:%s" % ("Timoshenko" if c.get("timo") else "EB")
+    elif c["kind"] == "beam" and c.get("scaleL"):
+        key = "beam-tagging-absolute-tolerance:Line.Contains"
     elif c["kind"] == "beam" and c.get("lineload") and not c.get("timo"):
         key = "beam-lineLoad-EB-inclined:add_lineLoad"
     elif c["kind"] == "beam" and c.get("exact") and len(c.get("points", [])) == 2 and c.get("angle") == 180.0:
@@ -343,7 +349,7 @@ def correspondence(ctx, beam, holder):
             continue
         tol = 1e-12 if c["kind"] in ("Bcheck", "motion") else c.get("tol", TOL)
         worst[cls] = max(worst.get(cls, 0.0), r["err"])
-        if r["err"] > tol:
+        if not (r["err"] <= tol):          # also catches NaN (a singular system of the moved problem)
             extra = ""
             if r.get("motion", {}).get("err", 0) > 1e-9:
                 m = r["motion"]
@@ -404,7 +410,7 @@ def run(ctx):
                       {"construct": str(ex)}, found_input=False)
     for k, v in gens.items():
         open(os.path.join(ctx.build, k), "w").write(v)
-    ctx.copy_props("C11/C11_wf.v", "C11/C11_pmat.v", "C11/C11_rot.v", "C10/C10_base.v", "C10/C10_beam.v", "C10/C10_beam_corrected.v", "C10/C10_strain.v", "C10/C10_continuum.v", "C10/C10_iso.v", "C10/C10_matrix.v", "C10/C10_integrated.v", "C10/C10_matrix2d.v")
+    ctx.copy_props("C11/C11_wf.v", "C11/C11_pmat.v", "C11/C11_rot.v", "C10/C10_base.v", "C10/C10_beam.v", "C10/C10_beam_corrected.v", "C10/C10_strain.v", "C10/C10_continuum.v", "C10/C10_iso.v", "C10/C10_matrix.v", "C10/C10_integrated.v", "C10/C10_matrix2d.v", "C10/C10_reflection.v")
     g = ctx.coq([f for f in ("Gen_Beam.v", "Gen_Pmat.v", "Gen_Laws.v") if f in gens] + (["C11_wf.v"] if "Gen_Pmat.v" in gens else []) + ["C10_base.v"], timeout=300, count=False)
     if not g.ok:
         ctx.obligation("generated-files-compile", False, g.log[-1500:])
@@ -439,6 +445,9 @@ def run(ctx):
             job("continuum", ["C10_continuum.v"])
             job("matrix2d", ["C10_matrix2d.v"])
             tm.join()
+            if ctx.tier == "thorough" and res.get("matrix") is not None and res["matrix"].ok:
+                # 3-D reflections (det Q = -1): ~75 s of `ring` on 36 symbolic stiffness entries, thorough tier only
+                job("reflection", ["C10_reflection.v"])
     if laws_coq:
         th[-1].join()
     tc.join()
@@ -459,7 +468,7 @@ def run(ctx):
                       "the beam element matrices are built with 3x3 blocks %s where P^T is needed (N_e_pg @ P_e_pg, B_e_pg @ P_e_pg): beam_K_objective is refuted by a 30-degree rotation%s"
                       % (ctx.cov["beam_block_layout"], " (machine-checked)" if rr.ok else ""),
                       {"replay_py": REPLAY % dict(verif=common.VERIF, case=case, tol=TOL), "case": case, "obligation": "beam_K_objective"}, found_input=True)
-    for name in ("corrected", "pmat", "rot", "strain", "continuum", "matrix", "matrix2d", "iso"):
+    for name in ("corrected", "pmat", "rot", "strain", "continuum", "matrix", "matrix2d", "reflection", "iso"):
         r = res.get(name)
         if r is not None and not r.ok:
             ctx.violation("proof-broken:%s" % r.failed_file, "theorem file %s no longer checks against the regenerated definitions" % r.failed_file,
